@@ -161,6 +161,17 @@ func mergeToWriter(segments []*SegmentBase, drops []*roaring.Bitmap,
 				return nil, 0, 0, nil, nil, 0, err
 			}
 		}
+	} else {
+		// nothing survives: the callers still get one map per input, in
+		// which every document is marked as dropped
+		newDocNums = make([][]uint64, len(segments))
+		for i, segment := range segments {
+			segNewDocNums := make([]uint64, segment.numDocs)
+			for docNum := range segNewDocNums {
+				segNewDocNums[docNum] = docDropped
+			}
+			newDocNums[i] = segNewDocNums
+		}
 	}
 
 	// we can persist the fields section index now, this will point
